@@ -116,6 +116,7 @@ type pathState struct {
 	taken    []Decision
 	pc       []*Term
 	pcSent   int
+	declSent int
 	events   []ReplayEvent
 	steps    int64
 	maxSteps int64
@@ -154,6 +155,10 @@ func (ps *pathState) addPC(t *Term) {
 }
 
 func (ps *pathState) flushPC() {
+	for ps.declSent < len(ps.st.Vars) {
+		ps.w.solver.DeclareVar(ps.st.Vars[ps.declSent])
+		ps.declSent++
+	}
 	for ps.pcSent < len(ps.pc) {
 		ps.w.solver.Assert(ps.st, ps.pc[ps.pcSent])
 		ps.pcSent++
@@ -306,9 +311,11 @@ func (i *interpreter) concretize(t *Term, why string) uint64 {
 	s.define(st, cond)
 	g := s.gen
 	s.Push()
-	s.send("(assert " + cond.ref() + ")")
+	s.AssertRef(cond.ref())
 	ps.queries++
+	s.wantRefs = []string{t.ref()}
 	r := s.Check()
+	s.wantRefs = nil
 	if s.gen != g {
 		ps.pcSent = 0
 		panic(pathEnd{kind: endInconclusive, reason: "solver error: " + s.lastErr})
@@ -321,15 +328,25 @@ func (i *interpreter) concretize(t *Term, why string) uint64 {
 		s.Pop()
 		panic(pathEnd{kind: endInfeasible})
 	}
-	s.send("(get-value (" + t.ref() + "))")
-	txt, err := s.readSexp()
-	s.Pop()
-	if err != nil {
-		panic(pathEnd{kind: endInconclusive, reason: "solver I/O: " + err.Error()})
-	}
-	val, err := parseSingleValue(txt)
-	if err != nil {
-		panic(pathEnd{kind: endInconclusive, reason: err.Error()})
+	var val uint64
+	if s.fbActive {
+		v, ok := s.fbValues[strings.Trim(t.ref(), "|")]
+		s.Pop()
+		if !ok {
+			panic(pathEnd{kind: endInconclusive, reason: "fallback solver gave no value while concretizing " + why})
+		}
+		val = v
+	} else {
+		s.send("(get-value (" + t.ref() + "))")
+		txt, err := s.readSexp()
+		s.Pop()
+		if err != nil {
+			panic(pathEnd{kind: endInconclusive, reason: "solver I/O: " + err.Error()})
+		}
+		val, err = parseSingleValue(txt)
+		if err != nil {
+			panic(pathEnd{kind: endInconclusive, reason: err.Error()})
+		}
 	}
 	alt := append(append([]Decision{}, ps.taken...), Decision{Kind: DConcExcl, Excl: append(append([]uint64{}, excl...), val)})
 	ps.ex.push(alt)
@@ -476,6 +493,7 @@ type Config struct {
 	BenignGlobals map[string]bool
 	Verbose       bool
 	Tier          int
+	Fallbacks     []string
 	BuildFilter   func(path string) bool
 	ZeroFuncs     map[string]bool // functions modelled as "return the zero value" (metrics set-up etc.)
 }
@@ -687,6 +705,7 @@ func Explore(prog *ssa.Program, entry *ssa.Function, cfg *Config) *HarnessResult
 		go func(id int) {
 			defer wg.Done()
 			wk := &worker{id: id, solver: NewSolver(cfg.Solver, cfg.TimeoutMs, &ex.stats)}
+			wk.solver.Fallbacks = cfg.Fallbacks
 			defer wk.solver.Close()
 			for {
 				prefix, ok := ex.pop()
@@ -890,8 +909,7 @@ func (ps *pathState) modelFor(extra *Term) (map[string]uint64, bool) {
 	g := s.gen
 	s.Push()
 	if extra != nil {
-		s.define(ps.st, extra)
-		s.send("(assert " + extra.ref() + ")")
+		panic("modelFor: extra terms must be defined before push")
 	}
 	ps.queries++
 	r := s.Check()
